@@ -5,12 +5,15 @@ import (
 	"encoding/json"
 	"fmt"
 	"os"
+	"os/exec"
+	"path/filepath"
 	"runtime/debug"
 	"sort"
 	"strconv"
 	"strings"
 
 	"verif/internal/check"
+	"verif/internal/load"
 	"verif/internal/rules"
 )
 
@@ -118,5 +121,117 @@ func main() {
 		}
 		os.Exit(0)
 	}
+	if tier == "thorough" && os.Getenv("VERIF_NO_SEEDED") == "" && os.Getenv("VERIF_REPO") == "" {
+		runSeeded(rep, id)
+	}
 	os.Exit(rep.Finish())
+}
+
+// runSeeded re-runs the quick tier of this check on scratch copies of the current tree with each seeded
+// behaviour-breaking change of /verif/seeded that concerns this property applied (outside /repo and /verif,
+// removed afterwards).  The outcome tests the checker, not the repository: it is recorded in the evidence
+// (mutants_applied / mutants_detected) and never changes the exit status.
+func runSeeded(rep *check.Report, id string) {
+	dir := filepath.Join(check.VerifDir(), "seeded")
+	ents, err := os.ReadDir(dir)
+	if err != nil {
+		return
+	}
+	type seed struct {
+		Name     string `json:"seed"`
+		Breaks   string `json:"breaks"`
+		Applied  bool   `json:"applied"`
+		Detected bool   `json:"detected"`
+		Report   string `json:"first_report,omitempty"`
+	}
+	var seeds []*seed
+	for _, e := range ents {
+		if !e.IsDir() {
+			continue
+		}
+		b, err := os.ReadFile(filepath.Join(dir, e.Name(), "meta.json"))
+		if err != nil {
+			continue
+		}
+		var m struct {
+			Property string   `json:"property"`
+			CaughtBy []string `json:"caught_by"`
+		}
+		if json.Unmarshal(b, &m) != nil {
+			continue
+		}
+		rel := m.Property == id
+		for _, c := range m.CaughtBy {
+			if c == id {
+				rel = true
+			}
+		}
+		if rel {
+			seeds = append(seeds, &seed{Name: e.Name(), Breaks: m.Property})
+		}
+	}
+	exe, err := os.Executable()
+	if err != nil || len(seeds) == 0 {
+		return
+	}
+	sem := make(chan struct{}, 8)
+	done := make(chan struct{})
+	for _, s := range seeds {
+		s := s
+		go func() {
+			sem <- struct{}{}
+			defer func() { <-sem; done <- struct{}{} }()
+			tmp, err := os.MkdirTemp("", "verif-seed-")
+			if err != nil {
+				return
+			}
+			defer os.RemoveAll(tmp)
+			repo := filepath.Join(tmp, "repo")
+			if out, err := exec.Command("rsync", "-a", "--exclude", ".git", load.RepoDir()+"/", repo+"/").CombinedOutput(); err != nil {
+				s.Report = "copy failed: " + string(out)
+				return
+			}
+			ap := exec.Command("git", "apply", filepath.Join(dir, s.Name, "patch.diff"))
+			ap.Dir = repo
+			if ap.Run() != nil {
+				s.Report = "patch no longer applies to the current tree"
+				return
+			}
+			s.Applied = true
+			vd := filepath.Join(tmp, "verif")
+			_ = os.MkdirAll(filepath.Join(vd, "evidence"), 0o755)
+			if kf, err := os.ReadFile(filepath.Join(check.VerifDir(), "KNOWN_FINDINGS.txt")); err == nil {
+				_ = os.WriteFile(filepath.Join(vd, "KNOWN_FINDINGS.txt"), kf, 0o644)
+			}
+			cmd := exec.Command(exe, id, "--tier", "quick")
+			cmd.Env = append(os.Environ(), "VERIF_REPO="+repo, "VERIF_DIR="+vd)
+			out, _ := cmd.CombinedOutput()
+			s.Detected = cmd.ProcessState != nil && cmd.ProcessState.ExitCode() == 1
+			for _, l := range strings.Split(string(out), "\n") {
+				if strings.HasPrefix(l, "  C") || strings.HasPrefix(l, "  checker") {
+					if len(l) > 240 {
+						l = l[:240]
+					}
+					s.Report = strings.TrimSpace(l)
+					break
+				}
+			}
+		}()
+	}
+	for range seeds {
+		<-done
+	}
+	applied, detected := 0, 0
+	for _, s := range seeds {
+		if s.Applied {
+			applied++
+		}
+		if s.Detected {
+			detected++
+		}
+	}
+	rep.Extra["mutants_applied"] = applied
+	rep.Extra["mutants_detected"] = detected
+	rep.Extra["seeded_changes"] = seeds
+	fmt.Printf("%s: seeded changes concerning this property: %d applied, %d detected by the quick tier\n", id, applied, detected)
 }
